@@ -447,6 +447,13 @@ func c18Scenarios(tier string) []scenario {
 		for _, call := range []string{"R", "Rp"} {
 			seqs = append(seqs, []string{"Rp", "RD1", "S2", call}, []string{"Rp", "RDp", "S1", call})
 		}
+		// "subsequent calls fail until the deadline is reset": two and three calls after a deadline
+		// that expired while no call was active, then the reset and a call that works again
+		for _, d := range []string{"R", "W"} {
+			seqs = append(seqs, []string{d + "Dp", "S1", d, d}, []string{d + "D1", "S2", d, d}, []string{d + "Dp", "S1", d, d, d},
+				[]string{d + "Dp", "S1", d, d, d + "D0", d}, []string{d + "D1", "S2", d, "S1", d, d + "D0", d})
+		}
+		seqs = append(seqs, []string{"RDp", "S1", "R", "Rp"}, []string{"RDp", "S1", "Rp", "R"}, []string{"WDp", "S1", "W", "W0"}, []string{"WDp", "S1", "W0", "W"})
 		for _, d := range []string{"R", "W"} {
 			call := d
 			for _, reset := range []string{"D0", "D1"} {
